@@ -370,6 +370,7 @@ def write_evidence(ctx, nviol, known_printed):
 BASE_TRUSTED = [
     'Coq 8.16.1 kernel and vm_compute (no native_compute); coqchk in the thorough tier of C07',
     'parametricity of the Num-polymorphic model: theorems are on the R instance, execution on the Q instance of the same term',
+    'where the model is executed on NumD / NumDF (128-bit software floating point) or NumQfast: the per-operation contract is PROVED in Props/Base.v (every + - * / faithful within 2^-127, float64 inputs exact, comparisons exact, verdict function sound, exp/ln slots with explicit bounds against the real functions); it depends on the Uint63 / PrimInt63 axioms and primitives of the standard library (Bignums)',
     'the correspondence harness (input generators, exact float<->Q conversion, tolerance table) and the overlay rebuild (gcc on the Cython-generated C + current kernel sources)',
     'CPython/numpy/scipy/nlopt/demes as the platform',
 ]
